@@ -229,7 +229,7 @@ def check_C05(rep, prog, tier):
     import json
     dl = tier_deadline(tier, 420, 2700)
     rep.level = 'fault_enumeration'
-    rep.bounds = {'archives': G.specs(tier), 'delete_sets': 'none (pure gc), each single band, all bands',
+    rep.bounds = {'archives': G.specs(tier), 'delete_sets': 'none (pure gc), each single band, all bands (in ascending and in descending order)',
                   'dry_run': [False, True], 'break_lock': 'both when GC_LOCK is present',
                   'crash_points': 'stop before every storage step k of delete_bands (k chosen by the solver)',
                   'faults': 'every single read/list/metadata step k failing with each of NotFound/Other/PermissionDenied/AlreadyExists',
@@ -250,6 +250,7 @@ def check_C05(rep, prog, tier):
         else:
             probs = ' '.join(b['problems'])
             kind = 'kept-band-loses-blocks' if 'still listed complete but its blocks' in probs else \
+                'half-deleted-band-still-complete' if 'its head or index hunks are gone' in probs else \
                 'removes-unrequested' if 'neither a requested band' in probs else \
                 'garbage-remains' if 'unreferenced blocks remain' in probs else \
                 'dry-run-mutates' if 'dry run' in probs else 'other'
@@ -269,7 +270,7 @@ def check_C05(rep, prog, tier):
             what_ = 'delete_bands panics: %s (fault %s)' % (b.get('msg'), sc.get('fired'))
         else:
             scan = out.get('scan') or {}
-            reproduced = bool(scan.get('damaged')) if 'still listed complete' in ' '.join(b['problems']) else \
+            reproduced = bool(scan.get('damaged') or scan.get('broken_complete_bands')) if 'still listed complete' in ' '.join(b['problems']) else \
                 (out.get('result') == b.get('result') or str(out.get('result', '')).startswith('Err') == str(b.get('result')).startswith('Err'))
             what_ = 'delete_bands(%s, dry_run=%s) on %s with %s: %s' % (b['delete'], b['dry_run'], json.dumps(b['spec']), sc.get('fired'), '; '.join(b['problems']))
         rep.violation(key, what_, path_, reproduced)
@@ -972,6 +973,16 @@ def _history_native(variant):
                 {'path': '/', 'kind': 'Dir', 'mode': 0o755, 'mtime': [1, 0]},
                 {'path': '/a', 'kind': 'File', 'size': sa, 'class': 1, 'mode': 0o644, 'mtime': [2, 0]},
                 {'path': '/m', 'kind': 'File', 'blocks': [sm, sn], 'size': sm + sn, 'class': 5, 'mode': 0o644, 'mtime': [4, 0]}]}]
+        elif variant == 'deep':
+            bands = [{'band': 0, 'closed': True, 'entries': [
+                {'path': '/', 'kind': 'Dir', 'mode': 0o755, 'mtime': [1, 0], 'hunk': 0},
+                {'path': '/a', 'kind': 'File', 'size': 7, 'class': 1, 'mode': 0o644, 'mtime': [2, 0], 'hunk': 0},
+                {'path': '/b', 'kind': 'File', 'size': 9, 'class': 2, 'mode': 0o600, 'mtime': [3, 0], 'hunk': 1},
+                {'path': '/c', 'kind': 'File', 'size': 6, 'class': 3, 'mode': 0o644, 'mtime': [4, 0], 'hunk': 2}]},
+                {'band': 1, 'closed': False, 'entries': [
+                    {'path': '/', 'kind': 'Dir', 'mode': 0o755, 'mtime': [1, 0], 'hunk': 0},
+                    {'path': '/a', 'kind': 'File', 'size': 8, 'class': 4, 'mode': 0o644, 'mtime': [5, 0], 'hunk': 0},
+                    {'path': '/b', 'kind': 'File', 'size': 9, 'class': 2, 'mode': 0o600, 'mtime': [3, 0], 'hunk': 1}]}]
         elif variant == 'single':
             bands = [{'band': 0, 'closed': bool(newest_closed), 'entries': [
                 {'path': '/', 'kind': 'Dir', 'mode': 0o755, 'mtime': [1, 0], 'hunk': 0},
@@ -991,7 +1002,8 @@ def _history_native(variant):
         path = b.get('path') or ''
         if path.startswith('d/'):
             # which block: by hash id order of creation (A, B | A, Z, C)
-            order = ['/a', '/b'] if variant == 'single' else ['/m#0', '/m#1', '/a'] if variant == 'multi' else ['/a', '/z', '/c']
+            order = ['/a', '/b'] if variant == 'single' else ['/m#0', '/m#1', '/a'] if variant == 'multi' else \
+                ['/a', '/b', '/c', '/a@1'] if variant == 'deep' else ['/a', '/z', '/c']
             import re as _re
             m = _re.match(r'd/\w+/[0-9a-f]{3}([0-9a-f]{125})$', path)
             idx = int(m.group(1), 16) - 1 if m else 0
@@ -1065,9 +1077,9 @@ def check_C10(rep, prog, tier):
     for ap in ['', 'a', '/..', '/a//b']:
         _damage_obligation(rep, prog, 'decoded apath %r: restore does not panic or escape' % ap, D.make_decoded(prog, 'restore', ap), dl, 'C10', _decoded_native)
     _damage_obligation(rep, prog, 'unparseable band_format_version: listing does not panic', D.make_decoded(prog, 'list', 'valid', 'x.y'), dl, 'C10', _decoded_native)
-    for variant in ['single', 'two', 'multi']:
+    for variant in ['single', 'two', 'multi'] + (['deep'] if tier != 'quick' else []):
         for op in ['restore', 'backup']:
-            _damage_obligation(rep, prog, 'one damaged file (%s history): %s does not panic, intact files are exact, lost files are reported' % ({'single': 'single-version', 'two': 'two-version', 'multi': 'two-block-file'}[variant], op),
+            _damage_obligation(rep, prog, 'one damaged file (%s history): %s does not panic, intact files are exact, lost files are reported' % ({'single': 'single-version', 'two': 'two-version', 'multi': 'two-block-file', 'deep': 'three-hunk band under an unfinished band'}[variant], op),
                                D.make_contained(prog, op, variant), dl, 'C10', _history_native(variant))
 
 
@@ -1080,8 +1092,9 @@ def check_C09(rep, prog, tier):
                   'healthy': 'archives written by the real backup() (one version, two versions, interrupted with header at every crash point) then validated'}
     rep.assumptions += ['altered block bytes are modelled as "decompression or hash check fails"; the real decoder is not executed',
                         'BlockDir::validate runs through the JoinSet model (tasks run in spawn order)'] + BC.COMMON_ASSUMPTIONS[:3]
-    for variant in ['single', 'two']:
-        _damage_obligation(rep, prog, 'validate reports at least one error whenever the damage changes what a version restores to (%s-version history)' % variant,
+    for variant in ['single', 'two'] + (['deep'] if tier != 'quick' else []):
+        _damage_obligation(rep, prog, 'validate reports at least one error whenever the damage changes what a version restores to (%s history)' % (
+            {'single': 'single-version', 'two': 'two-version', 'deep': 'three-hunk band under an unfinished two-hunk band'}[variant]),
                            D.make_contained(prog, 'validate', variant), dl, 'C09', _history_native(variant))
     shapes = [('FF', [1, 2])] if tier == 'quick' else [('FF', [1, 2]), ('FF', [1, 1]), ('FSD', [1, 0, 0])]
     cases = _bcases(shapes, ['none', 'crash', 'empty_crash'], validate_after=True) + _bcases([('F', [1])], ['none'], prior='same', validate_after=True)
@@ -1146,11 +1159,13 @@ def check_C02(rep, prog, tier):
     def reuse_judge(b):
         m = b.get('model') or {}
         sc = {'kind': 'backup', 'options': {'max_block_size': 1 << 16, 'small_file_cap': 1 << 8, 'max_entries_per_hunk': 1000},
-              'prior_files': [{'path': '/a', 'kind': 'File', 'content_len': m.get('basis_size', 1), 'content_class': 1, 'mode': 0o644,
+              'prior_files': [{'path': '/a', 'kind': 'File', 'content_len': m.get('basis_size', 1), 'content_class': 1, 'mode': m.get('basis_mode', 0o644) | 0o400,
                                'mtime': [m.get('basis_s', 0), m.get('basis_n', 0)]}],
-              'files': [{'path': '/a', 'kind': 'File', 'content_len': m.get('new_size', 1), 'content_class': 2 if b.get('changed') else 1, 'mode': 0o644,
-                         'mtime': [m.get('new_s', 0), m.get('new_n', 0)]}]}
-        return sc, (lambda out: bool(out.get('panic')) or any(v.get('wrong_content') for v in (out.get('versions') or [])[-1:]) or not b.get('changed'))
+              'files': [{'path': '/a', 'kind': 'File', 'content_len': m.get('new_size', 1), 'content_class': 2 if b.get('changed') else 1,
+                         'mode': m.get('new_mode', 0o644) | 0o400, 'mtime': [m.get('new_s', 0), m.get('new_n', 0)]}]}
+        # reproduced: the newest version restores with wrong bytes, or with any difference from the source (mode, mtime, ...)
+        return sc, (lambda out: bool(out.get('panic')) or any(v.get('wrong_content') or v.get('differences') for v in (out.get('versions') or [])[-1:])
+                    or (not b.get('changed') and not any('mode recorded' in p_ for p_ in b.get('problems', []))))
 
     def sel_judge(b):
         sc = {'kind': 'select', 'bands': [{'band': i, 'state': 'closed' if b['closed'].get(i) else 'open', 'hunks': []} for i in b['ids']]}
